@@ -448,7 +448,9 @@ impl Runner {
         self.w.log(json!({"ev":"Vn","t":t,"ok":true,"id":id,"own":own}));
     }
 
-    /// {"do":"mitm","dir":"c2s"|"s2c","nth_short":k,"mode":"append"|"replace","hex":"..."}
+    /// {"do":"mitm","dir":"c2s"|"s2c","nth_short":k,"mode":"append"|"replace","hex":"...","count":n}
+    /// Rewrites `count` (default 1) short-header datagrams of that direction, starting with the
+    /// k-th one from now, as an authenticated man in the middle.
     fn install_mitm(&mut self, s: &Value) {
         let from_server = s["dir"].as_str().unwrap_or("c2s") == "s2c";
         let mut remaining = s["nth_short"].as_u64().unwrap_or(0);
@@ -457,9 +459,9 @@ impl Runner {
         let extra: Vec<u8> = (0..hexs.len() / 2)
             .map(|i| u8::from_str_radix(&hexs[2 * i..2 * i + 2], 16).unwrap_or(0))
             .collect();
-        let mut done = false;
+        let mut left = s["count"].as_u64().unwrap_or(1);
         self.w.mitm = Some(Box::new(move |d, pkts, ctx| {
-            if done || ctx.from_server != from_server {
+            if left == 0 || ctx.from_server != from_server {
                 return;
             }
             let Some(last) = pkts.last() else { return };
@@ -477,7 +479,7 @@ impl Runner {
             };
             if ok {
                 d.cls = "inject";
-                done = true;
+                left -= 1;
             }
         }));
     }
